@@ -45,6 +45,7 @@ func c02RespondHang(oc *env.OriginCall) env.OriginResp {
 }
 
 type c02Params struct {
+	Ticks   []int64 // clock jumps offered before every clock read (a fetch that takes this long)
 	Hang    bool // second outcome family, location with a sub-second proxy timeout, clients accept gzip
 	Name    string
 	Threads int
@@ -110,7 +111,7 @@ func c02Scenario(c *Ctx, p c02Params) Sched {
 	}
 	return Sched{
 		Name:   p.Name,
-		Opt:    vsched.Options{},
+		Opt:    vsched.Options{Ticks: p.Ticks},
 		Bounds: p.Bounds,
 		Setup: func() ([]func(), func(*vsched.Exec) *vsched.Violation, func() string) {
 			e := getEnv(cfg, envName)
@@ -279,6 +280,8 @@ func init() {
 		c.RunSched(c02Scenario(c, c02Params{Name: "outcomes3", Threads: 3, Reqs: 1, Bounds: b}))
 		c.RunSched(c02Scenario(c, c02Params{Name: "outcomes2-purge", Threads: 2, Reqs: 1, Purge: true, Bounds: b}))
 		c.RunSched(c02Scenario(c, c02Params{Name: "outcomes2x2", Threads: 2, Reqs: 2, Bounds: b2}))
+		// a fetch that takes very long: the clock jumps by a minute or an hour while it is in flight
+		c.RunSched(c02Scenario(c, c02Params{Name: "slow-fetch3", Threads: 3, Reqs: 1, Ticks: []int64{61, 3600}, Bounds: vsched.Bounds{Preempt: 2, Tick: 1, Data: 1, Total: 3}}))
 		c.RunSched(c02Scenario(c, c02Params{Name: "hung-origin3", Hang: true, Threads: 3, Reqs: 1, Bounds: b}))
 		c.RunSched(c02Core(c, "core-next-outcomes3", 3, b))
 		c.RunSched(c02Scenario(c, c02Params{Name: "cacheable3-purge", Threads: 3, Reqs: 1, Purge: true, Bounds: vsched.Bounds{Preempt: 2, Tick: 1, Data: 0, Total: 2}}))
